@@ -15,7 +15,10 @@ RULE = ("fan-in workflows u1..un -> j(join) -> d, n in {2,3}, every join type (A
         "without predefined tasks, optionally a pending persistent SignalStage(j); the real engine is brought to every state reachable by "
         "sequentially delivering the pending CompleteStage(u_i)/StartStage(j)/SignalStage(j) messages (prefix), then worker A handles one pending "
         "message and worker B handles another one (or the same row again: duplicate delivery) injected at EVERY legal DB-call point of A "
-        "(legal = A holds no SQLite lock), thorough: a third worker C nested at every legal point of B; afterwards the queue is drained FIFO. "
+        "(legal = A holds no SQLite lock); quick: the important pairs (StartStage x StartStage, StartStage x CompleteStage, CompleteStage x CompleteStage, "
+        "StartStage x SignalStage, duplicates) plus a seeded sample with a third worker C nested at every legal point of B; thorough: all pairs, and the "
+        "nested third worker for DISCRIMINATOR / N_OF_M with 3 branches, the signal workflow and the no-predefined-tasks (zombie-capable) workflow; "
+        "afterwards the queue is drained FIFO. "
         "A schedule is distinct by (workflow, prefix, ops, injection indices) and non-trivial when B really ran inside A. "
         "Each schedule is mapped to a ClaimProtocol schedule (one model step per observed row read / CAS transaction) and the post-race row state, "
         "ghost counters and per-worker outcomes are compared with the Lean model.")
@@ -24,7 +27,7 @@ ASSUMPTIONS = [
     "it is not every statement-level interleaving of three free-running workers (see harness/modeb.py)",
     "poll_one's claim of a row is done by the harness before the handler runs (the two workers already hold their messages); queue polling races are C08",
     "delays are treated as elapsed only when nothing else is deliverable; wait budgets (max_stage_wait_retries=2 here) are not exhausted while work is pending",
-    "engine retry bounds (_CLAIM_RETRY_LIMIT of the fix, _update_join_tracking max_retries, max_attempts/DLQ) are not reached by <= 2 concurrent foreign writers; "
+    "engine retry bounds (_CLAIM_RETRY_LIMIT, _update_join_tracking max_retries, max_attempts/DLQ) are not reached by <= 2 concurrent foreign writers; "
     "the model retries unboundedly",
 ]
 TRUSTED_BASE = [
@@ -34,7 +37,7 @@ TRUSTED_BASE = [
     "other handlers reached during the drain (StartTask, RunTask, CompleteTask, CompleteWorkflow) are exercised by the monitors only",
 ]
 
-FIX = 1      # the model mirrors the code WITH proposed_fixes/F6.diff
+FIX = 1      # the code since fix 03375b7 (F6); fix=0 exists only for the legacy witnesses in Props/C04.lean
 RUN_STEPS = 16   # model steps that certainly finish a sequentially run prefix worker
 
 
@@ -645,6 +648,10 @@ def digest(ctx, results: list[dict]) -> None:
     for res in results:
         for k in ("points", "illegal_points", "enumerations"):
             mbx[k] = mbx.get(k, 0) + res.get(k, 0)
+    # the first hit of a signature becomes the replay: prefer the fewest workers, then the shortest prefix
+    allsched = sorted((r for res in results for r in res["schedules"]),
+                      key=lambda r: (len(r["sched"]["ops"]), len(r["sched"]["prefix"]), json.dumps(r["sched"]["ops"])))
+    for res in [{"schedules": allsched}]:
         for r in res["schedules"]:
             sched = r["sched"]
             canon = {"wf": sched["wf"], "prefix": sched["prefix"], "ops": sched["ops"]}
